@@ -21,5 +21,8 @@ func GenCfg(t *rapid.T) Cfg {
 			c.DbMap[from] = to
 		}
 	}
+	if c.Restore {
+		c.BadFormatEvery = rapid.SampledFrom([]int{0, 0, 0, 0, 1, 2, 3}).Draw(t, "badFormatEvery")
+	}
 	return c
 }
